@@ -587,4 +587,454 @@ theorem tiny_neg_one (M sh : Nat) (E : Int) (hsh : (sh : Int) = -E) (hsh83 : 83 
     rw [hpk]
     exact convert_near_one q (by omega) (by omega)
 
+/-! ## the exact fractional part on integers -/
+
+/-- `|f|·2^149` for a finite float32 given as `m·2^e` -/
+def absVOf (m : Nat) (e : Int) : Nat := m * 2^(e + 149).toNat
+
+/-- `(f − ⌊f⌋)·2^149` -/
+def fracNOf (s : Bool) (m : Nat) (e : Int) : Nat :=
+  if s then (2^149 - absVOf m e % 2^149) % 2^149 else absVOf m e % 2^149
+
+/-- the fractional part `R` (in units of `2^E`) and `N` (in units of `2^-149`) are the same number -/
+theorem frac_rel (s : Bool) (m : Nat) (e : Int) (kk sh : Nat) (_he : -149 ≤ e) (_hkk : kk ≤ 52)
+    (hM1 : 4503599627370496 ≤ m * 2^kk) (hM2 : m * 2^kk < 9007199254740992)
+    (hsh : (sh : Int) = -(e - kk)) (hsh1 : 1 ≤ sh) :
+    (∃ a : Nat, (a : Int) = e - kk + 149 ∧ fracNOf s m e = fracR s (m * 2^kk) sh * 2^a) ∨
+    (∃ c : Nat, 1 ≤ c ∧ (c : Int) = -(e - kk + 149) ∧ fracNOf s m e * 2^c = fracR s (m * 2^kk) sh ∧
+      absVOf m e * 2^c = m * 2^kk ∧ absVOf m e < 9007199254740992) := by
+  by_cases hA : 0 ≤ e - kk + 149
+  · left
+    obtain ⟨a, ha⟩ : ∃ a : Nat, (a : Int) = e - kk + 149 := ⟨(e - kk + 149).toNat, by omega⟩
+    refine ⟨a, ha, ?_⟩
+    have hV : absVOf m e = m * 2^kk * 2^a := by
+      unfold absVOf
+      rw [Nat.mul_assoc, ← Nat.pow_add]; congr 2; omega
+    have h149 : 2^149 = 2^sh * 2^a := by rw [← Nat.pow_add]; congr 1; omega
+    have hTpos := Nat.two_pow_pos a
+    have hPpos := Nat.two_pow_pos sh
+    unfold fracNOf fracR
+    rw [hV, h149, Nat.mul_mod_mul_right]
+    generalize m * 2^kk = M at *
+    have hr := Nat.mod_lt M hPpos
+    generalize M % 2^sh = r at *
+    cases s
+    · simp only [Bool.false_eq_true, if_false]
+    · simp only [if_true]
+      by_cases hr0 : r = 0
+      · rw [if_pos hr0, hr0, Nat.zero_mul, Nat.sub_zero, Nat.mod_self]
+      · rw [if_neg hr0]
+        have e1 : 2^sh * 2^a - r * 2^a = (2^sh - r) * 2^a := by rw [Nat.sub_mul]
+        rw [e1]
+        apply Nat.mod_eq_of_lt
+        exact (Nat.mul_lt_mul_right hTpos).2 (by omega)
+  · right
+    obtain ⟨c, hc⟩ : ∃ c : Nat, (c : Int) = -(e - kk + 149) := ⟨(-(e - kk + 149)).toNat, by omega⟩
+    have hV : absVOf m e * 2^c = m * 2^kk := by
+      unfold absVOf
+      rw [Nat.mul_assoc, ← Nat.pow_add]; congr 2; omega
+    have hcpos := Nat.two_pow_pos c
+    have hVlt : absVOf m e < 9007199254740992 := by
+      have := Nat.le_mul_of_pos_right (absVOf m e) hcpos
+      omega
+    have hsh149 : 2^sh = 2^149 * 2^c := by rw [← Nat.pow_add]; congr 1; omega
+    have c149 : (2:Nat)^149 = 713623846352979940529142984724747568191373312 := by decide
+    have hVmod : absVOf m e % 2^149 = absVOf m e := Nat.mod_eq_of_lt (by rw [c149]; omega)
+    have hMlt : m * 2^kk < 2^sh := by
+      rw [hsh149, c149]
+      have : 1 ≤ 2^c := hcpos
+      have := Nat.le_mul_of_pos_right 713623846352979940529142984724747568191373312 hcpos
+      omega
+    have hMmod : m * 2^kk % 2^sh = m * 2^kk := Nat.mod_eq_of_lt hMlt
+    refine ⟨c, by omega, hc, ?_, hV, hVlt⟩
+    unfold fracNOf fracR
+    rw [hVmod, hMmod]
+    have hVpos : 0 < absVOf m e := by
+      rcases Nat.eq_zero_or_pos (absVOf m e) with h | h
+      · rw [h, Nat.zero_mul] at hV; omega
+      · exact h
+    cases s
+    · simp only [Bool.false_eq_true, if_false]; exact hV
+    · simp only [if_true]
+      rw [if_neg (by omega)]
+      have : (2^149 - absVOf m e) % 2^149 = 2^149 - absVOf m e := Nat.mod_eq_of_lt (by omega)
+      rw [this, Nat.sub_mul, hV, hsh149]
+
+
+/-! ## assembling -/
+
+theorem roundMag64_le_inf (n : Nat) (e : Int) : roundMag .f64 n e ≤ 9218868437227405312 := by
+  obtain ⟨fe, hfe⟩ : ∃ fe : Int, fe = if e + (bitLen n : Int) - 53 < -1074 then -1074
+      else e + (bitLen n : Int) - 53 := ⟨_, rfl⟩
+  obtain ⟨q, _, hr⟩ := roundMag_f64_q n e fe hfe
+  rw [hr]
+  by_cases h : (fe + 1074).toNat * 4503599627370496 + q ≥ 9218868437227405312
+  · rw [if_pos h]; omega
+  · rw [if_neg h]; omega
+
+theorem roundPack64_lt (neg : Bool) (n : Nat) (e : Int) :
+    roundPack .f64 neg n e < 18446744073709551616 := by
+  by_cases hn : n = 0
+  · subst hn; rw [roundPack_zero, withSign64]; split <;> omega
+  · rw [roundPack_pos _ _ _ _ hn, withSign64]
+    have := roundMag64_le_inf n e
+    split <;> omega
+
+theorem floor_lt64 (s : Bool) (M : Nat) (E : Int) (hM1 : 4503599627370496 ≤ M)
+    (hM2 : M < 9007199254740992) (hE1 : -1074 ≤ E) (hE2 : E + 1075 < 2047) :
+    Num.floor .f64 (pack64 s M E) < 18446744073709551616 := by
+  rw [floor_fin _ _ _ _ _ (unpack_pack64 s M E hM1 hM2 hE1 hE2)]
+  split
+  · exact pack64_lt _ _ _ hM2 hE2
+  · exact roundPack64_lt _ _ _
+
+/-- `g − g = +0` -/
+theorem sub_self64 (s : Bool) (Q : Nat) (FE : Int) (hQ1 : 4503599627370496 ≤ Q)
+    (hQ2 : Q < 9007199254740992) (h1 : -1074 ≤ FE) (h2 : FE + 1075 < 2047) :
+    Num.sub .f64 (pack64 s Q FE) (pack64 s Q FE) = 0 := by
+  unfold Num.sub
+  rw [isNaN64_pack s Q FE hQ2 h1 h2]
+  simp only [Bool.or_self, Bool.false_eq_true, if_false]
+  rw [neg64_pack s Q FE hQ2 h1 h2]
+  rw [add_fin_fin _ _ _ _ _ _ _ _ _ (unpack_pack64 s Q FE hQ1 hQ2 h1 h2)
+    (unpack_pack64 (!s) Q FE hQ1 hQ2 h1 h2)]
+  simp only [Int.le_refl, if_true, Int.sub_self, Int.toNat_zero, Nat.pow_zero, Nat.mul_one]
+  cases s <;> simp [withSign] <;> omega
+
+theorem convert_zero : convert .f64 .f32 0 = 0 := by
+  rw [convert_fin _ _ _ _ _ _ unpack64_zero, roundPack_zero]; simp [withSign]
+
+theorem ofRatio_zero (d : Nat) : F32.ofRatio false 0 d = F32.ofNatBits 0 := by
+  simp [F32.ofRatio, withSign]
+
+/-- the general statement on an unpacked finite nonzero float -/
+theorem angle_core (f : F32) (s : Bool) (m : Nat) (e : Int) (j : Nat)
+    (hu : unpack .f32 f.nb = .fin s m e) (h1 : 2^j ≤ m) (h2 : m < 2^(j+1)) (hj : j ≤ 23)
+    (he : -149 ≤ e) (he2 : e ≤ 104) :
+    angleNorm f = F32.ofRatio false (fracNOf s m e) (2^149) := by
+  obtain ⟨hM1, hM2⟩ := norm64 m j (52 - j) (by omega) h1 h2
+  have hs1 := stage1 f.nb s m e j (52 - j) hu (by omega) h1 h2 he he2
+  obtain ⟨E, hEdef⟩ : ∃ E : Int, E = e - ((52 - j : Nat) : Int) := ⟨_, rfl⟩
+  rw [← hEdef] at hs1
+  have hE1 : -1074 ≤ E := by omega
+  have hE2 : E + 1075 < 2047 := by omega
+  have hg : (F64.ofF32 f).nb = pack64 s (m * 2^(52 - j)) E := by
+    unfold F64.ofF32
+    rw [hs1, nb64_ofNatBits _ (pack64_lt _ _ _ hM2 hE2)]
+  have hfl : (F64.ofF32 f).floor.nb = Num.floor .f64 (pack64 s (m * 2^(52 - j)) E) := by
+    unfold F64.floor
+    rw [hg, nb64_ofNatBits _ (floor_lt64 _ _ _ hM1 hM2 hE1 hE2)]
+  -- reduce to the bit pattern of the subtraction
+  suffices hmain : ∃ SB, Num.sub .f64 (pack64 s (m * 2^(52 - j)) E)
+        (Num.floor .f64 (pack64 s (m * 2^(52 - j)) E)) = SB ∧ SB < 18446744073709551616 ∧
+      F32.ofNatBits (convert .f64 .f32 SB) = F32.ofRatio false (fracNOf s m e) (2^149) by
+    obtain ⟨SB, hsb, hlt, hres⟩ := hmain
+    show F64.toF32 (F64.ofF32 f - (F64.ofF32 f).floor) = _
+    rw [f64_sub_def]
+    unfold F64.sub F64.toF32
+    rw [hg, hfl, hsb, nb64_ofNatBits _ hlt, hres]
+  generalize hM : m * 2^(52 - j) = M at *
+  by_cases hEnn : 0 ≤ E
+  · -- an integer: g − g = +0
+    refine ⟨0, ?_, by omega, ?_⟩
+    · rw [floor_fin _ _ _ _ _ (unpack_pack64 s M E hM1 hM2 hE1 hE2), if_pos hEnn]
+      exact sub_self64 s M E hM1 hM2 hE1 hE2
+    · rw [convert_zero]
+      have hN : fracNOf s m e = 0 := by
+        have hV : absVOf m e % 2^149 = 0 := by
+          unfold absVOf
+          have : (e + 149).toNat = ((e + 149).toNat - 149) + 149 := by omega
+          rw [this, Nat.pow_add, ← Nat.mul_assoc]
+          exact Nat.mul_mod_left _ _
+        unfold fracNOf
+        rw [hV]
+        cases s <;> simp
+      rw [hN, ofRatio_zero]
+  · -- a fractional part
+    obtain ⟨sh, hsh⟩ : ∃ sh : Nat, (sh : Int) = -E := ⟨(-E).toNat, by omega⟩
+    have hsh1 : 1 ≤ sh := by omega
+    have hsb := sub_floor64 s M E sh hsh hsh1 hM1 hM2 hE1
+    have hrel := frac_rel s m e (52 - j) sh he (by omega) (by rw [hM]; exact hM1) (by rw [hM]; exact hM2)
+      (by omega) hsh1
+    rw [hM] at hrel
+    have hNlt : fracNOf s m e < 2^149 := by
+      unfold fracNOf
+      split <;> exact Nat.mod_lt _ (Nat.two_pow_pos 149)
+    generalize hN : fracNOf s m e = N at *
+    generalize hR : fracR s M sh = R at *
+    by_cases hR0 : R = 0
+    · refine ⟨0, by rw [hsb, if_pos hR0], by omega, ?_⟩
+      have hN0 : N = 0 := by
+        rcases hrel with ⟨a, _, h⟩ | ⟨c, _, _, h, _, _⟩
+        · rw [h, hR0, Nat.zero_mul]
+        · rw [hR0] at h
+          have := Nat.two_pow_pos c
+          rcases Nat.eq_zero_or_pos N with h0 | h0
+          · exact h0
+          · have := Nat.mul_pos h0 this; omega
+      rw [convert_zero, hN0, ofRatio_zero]
+    · refine ⟨roundPack .f64 false R E, by rw [hsb, if_neg hR0], roundPack64_lt _ _ _, ?_⟩
+      have hRpos : 0 < R := by omega
+      have hPpos := Nat.two_pow_pos sh
+      have hrlt := Nat.mod_lt M hPpos
+      have c53 : (2:Nat)^53 = 9007199254740992 := by decide
+      by_cases hiii : s = true ∧ 83 ≤ sh
+      · -- tiny negative: both sides are 1.0
+        obtain ⟨hs, h83⟩ := hiii
+        subst hs
+        have hMlt : M < 2^sh := by
+          have := Nat.pow_le_pow_right (n := 2) (by omega) (show 53 ≤ sh by omega)
+          rw [c53] at this; omega
+        have hRv : R = 2^sh - M := by
+          rw [← hR]; unfold fracR
+          simp only [if_true]
+          rw [Nat.mod_eq_of_lt hMlt, if_neg (by omega)]
+        rw [hRv, tiny_neg_one M sh E hsh h83 hM1 hM2 (by omega)]
+        symm
+        apply ofRatio_near_one N _ hNlt
+        have c119 : (2:Nat)^119 = 664613997892457936451903530140172288 := by decide
+        rcases hrel with ⟨a, ha, h⟩ | ⟨c, hc1, hc, h, hV, hVlt⟩
+        · -- N = (2^sh − M)·2^a = 2^149 − M·2^a, with M·2^a < 2^119
+          have h149 : 2^sh * 2^a = 2^149 := by rw [← Nat.pow_add]; congr 1; omega
+          have hMa : M * 2^a < 2^119 := by
+            have ha66 : a ≤ 66 := by omega
+            have hp := Nat.pow_le_pow_right (n := 2) (by omega) ha66
+            have : M * 2^a < 9007199254740992 * 2^66 :=
+              Nat.mul_lt_mul_of_lt_of_le hM2 hp (Nat.two_pow_pos _)
+            have e : 9007199254740992 * 2^66 = 2^119 := by decide
+            omega
+          rw [h, hRv, Nat.sub_mul, h149]
+          omega
+        · -- N·2^c = 2^sh − M = (2^149 − |V|)·2^c
+          have hsh149 : 2^sh = 2^149 * 2^c := by rw [← Nat.pow_add]; congr 1; omega
+          have hcpos := Nat.two_pow_pos c
+          have hNv : N = 2^149 - absVOf m e := by
+            apply Nat.eq_of_mul_eq_mul_right hcpos
+            rw [h, hRv, Nat.sub_mul, hV, hsh149]
+          rw [hNv, c119]
+          have c149 : (2:Nat)^149 = 713623846352979940529142984724747568191373312 := by decide
+          rw [c149]; omega
+      · -- exact regime
+        have hex : ∃ Rn tz : Nat, R = Rn * 2^tz ∧ 0 < Rn ∧ Rn < 9007199254740992 ∧ tz ≤ 29 := by
+          clear hrel
+          by_cases hsm : R < 9007199254740992
+          · exact ⟨R, 0, by simp, hRpos, hsm, by omega⟩
+          · -- only possible for negative f with 53 ≤ sh ≤ 82: R = 2^sh − M, a multiple of 2^29
+            have hs : s = true := by
+              cases s
+              · exfalso; apply hsm
+                rw [← hR]; unfold fracR
+                simp only [Bool.false_eq_true, if_false]
+                have := Nat.mod_le M (2^sh); omega
+              · rfl
+            subst hs
+            have hsh82 : sh ≤ 82 := by
+              rcases Nat.lt_or_ge sh 83 with h | h
+              · omega
+              · exact absurd ⟨rfl, h⟩ hiii
+            have hRle : R ≤ 2^sh := by
+              rw [← hR]; unfold fracR; simp only [if_true]; split <;> omega
+            have hsh53 : 53 ≤ sh := by
+              rcases Nat.lt_or_ge sh 53 with h | h
+              · exfalso
+                have := Nat.pow_le_pow_right (n := 2) (by omega) (show sh ≤ 52 by omega)
+                have c52 : (2:Nat)^52 = 4503599627370496 := by decide
+                rw [c52] at this; omega
+              · exact h
+            have hMlt : M < 2^sh := by
+              have := Nat.pow_le_pow_right (n := 2) (by omega) hsh53
+              rw [c53] at this; omega
+            have hRv : R = 2^sh - M := by
+              rw [← hR]; unfold fracR
+              simp only [if_true]
+              rw [Nat.mod_eq_of_lt hMlt, if_neg (by omega)]
+            -- M = mn·2^29
+            have hMsplit : M = m * 2^(52 - j - 29) * 2^29 := by
+              rw [← hM, Nat.mul_assoc, ← Nat.pow_add]; congr 2; omega
+            have hshsplit : 2^sh = 2^(sh - 29) * 2^29 := by
+              rw [← Nat.pow_add]; congr 1; omega
+            refine ⟨2^(sh - 29) - m * 2^(52 - j - 29), 29, ?_, ?_, ?_, by omega⟩
+            · rw [hRv, hMsplit, hshsplit, Nat.sub_mul]
+            · have : 0 < (2^(sh - 29) - m * 2^(52 - j - 29)) * 2^29 := by
+                rw [Nat.sub_mul, ← hshsplit, ← hMsplit]; omega
+              rcases Nat.eq_zero_or_pos (2^(sh - 29) - m * 2^(52 - j - 29)) with h0 | h0
+              · rw [h0, Nat.zero_mul] at this; omega
+              · exact h0
+            · have := Nat.pow_le_pow_right (n := 2) (by omega) (show sh - 29 ≤ 53 by omega)
+              rw [c53] at this
+              have hmn : 0 < m * 2^(52 - j - 29) := by
+                rcases Nat.eq_zero_or_pos (m * 2^(52 - j - 29)) with h0 | h0
+                · rw [h0, Nat.zero_mul] at hMsplit; omega
+                · exact h0
+              omega
+        obtain ⟨Rn, tz, hRRn, hRn0, hRnlt, htz⟩ := hex
+        rcases hrel with ⟨a, ha, h⟩ | ⟨c, hc1, hc, h, _, _⟩
+        · have hN0 : 0 < N := by
+            rw [h]; exact Nat.mul_pos hRpos (Nat.two_pow_pos _)
+          exact exact_regime R Rn tz E N a 0 hRRn hRn0 hRnlt htz (by omega) (by omega) hN0 hNlt
+            (by rw [Nat.pow_zero, Nat.mul_one]; exact h) (by omega)
+        · have hN0 : 0 < N := by
+            rcases Nat.eq_zero_or_pos N with h0 | h0
+            · rw [h0, Nat.zero_mul] at h; omega
+            · exact h0
+          exact exact_regime R Rn tz E N 0 c hRRn hRn0 hRnlt htz (by omega) (by omega) hN0 hNlt
+            (by rw [Nat.pow_zero, Nat.mul_one]; exact h) (by omega)
+
+/-! ## the headline theorem -/
+
+/-- `|f|·2^149` for a finite float32, from its fields -/
+def absV (f : F32) : Nat :=
+  (if expo f = 0 then mant f else mant f + 8388608) * 2^(expo f - 1)
+
+/-- `(f − ⌊f⌋)·2^149`: the fractional part of `f` as an integer multiple of `2^-149` -/
+def fracN (f : F32) : Nat :=
+  if sgn f = 1 then (2^149 - absV f % 2^149) % 2^149 else absV f % 2^149
+
+/-- **`angleNorm f` is `f − ⌊f⌋` rounded once to binary32**: for every finite float32 `f` (normal,
+    subnormal or zero, either sign) the value `encodeAngle` hands to `encodeZeroToOne` is the float32
+    nearest (ties to even) to the rational `N/2^149`, `N = fracN f = (f − ⌊f⌋)·2^149` -/
+theorem angle_mod1 (f : F32) (hfin : expo f ≠ 255) :
+    angleNorm f = F32.ofRatio false (fracN f) (2^149) := by
+  obtain ⟨hf, hs, hex, hmt⟩ := nb_fields f
+  by_cases hz : f.nb % 2147483648 = 0
+  · have hN : fracN f = 0 := by
+      have h1 : expo f = 0 := by omega
+      have h2 : mant f = 0 := by omega
+      have hV : absV f = 0 := by simp [absV, h1, h2]
+      unfold fracN; rw [hV]; split <;> simp
+    rw [hN, ofRatio_zero]
+    rcases zero_cases f hz with rfl | rfl
+    · rw [angleNorm_zeros.1]; rfl
+    · rw [angleNorm_zeros.2]; rfl
+  · have hsgB : decide (sgn f = 1) = (sgn f == 1) := by
+      by_cases h : sgn f = 1 <;> simp [h]
+    by_cases hex0 : expo f = 0
+    · -- subnormal
+      have hm0 : 0 < mant f := by omega
+      obtain ⟨j, kk, hjk, hj1, hj2⟩ := exists_jk (mant f) hm0 (by omega)
+      have hj22 : j ≤ 22 := by
+        rcases Nat.lt_or_ge j 23 with h | h
+        · omega
+        · have := Nat.pow_le_pow_right (n := 2) (by omega) h
+          have c : (2:Nat)^23 = 8388608 := by decide
+          rw [c] at this
+          clear c
+          omega
+      have hu := unpack_f32 f.nb
+      have e1 : f.nb / 8388608 % 256 = 0 := hex0
+      have e2 : f.nb % 8388608 = mant f := rfl
+      rw [e1, e2, if_neg (by omega), if_pos rfl] at hu
+      have hsg : negB f.nb = (sgn f == 1) := by
+        unfold negB
+        have : f.nb / 2147483648 % 2 = sgn f := by
+          show f.nb / 2147483648 % 2 = f.nb / 2147483648
+          omega
+        rw [this]
+      rw [hsg] at hu
+      rw [angle_core f _ _ _ j hu hj1 hj2 (by omega) (by omega) (by omega)]
+      congr 1
+      unfold fracNOf fracN absVOf absV
+      rw [hex0]
+      have : ((-149 : Int) + 149).toNat = 0 := by omega
+      rw [this]
+      by_cases h : sgn f = 1 <;> simp [h]
+    · -- normal
+      have hu := unpack_normal (sgn f) (expo f) (mant f) hs (by omega) (by omega) hmt
+      rw [← hf] at hu
+      have c23 : (2:Nat)^23 ≤ mant f + 8388608 := by
+        have c : (2:Nat)^23 = 8388608 := by decide
+        rw [c]; clear c; omega
+      have c24 : mant f + 8388608 < (2:Nat)^(23 + 1) := by
+        have c : (2:Nat)^(23+1) = 16777216 := by decide
+        rw [c]; clear c; omega
+      rw [angle_core f _ _ _ 23 hu c23 c24 (by omega) (by omega) (by omega)]
+      congr 1
+      unfold fracNOf fracN absVOf absV
+      have : ((expo f : Int) - 150 + 149).toNat = expo f - 1 := by omega
+      rw [this, if_neg hex0]
+      by_cases h : sgn f = 1 <;> simp [h]
+
+
+/-- the float32 nearest to `N/2^149`, `N < 2^149`, is non-negative and at most 1.0 -/
+theorem ofRatio_le_one (N : Nat) (hN : N < 2^149) :
+    (F32.ofRatio false N (2^149)).nb ≤ 1065353216 := by
+  by_cases hN0 : N = 0
+  · subst hN0; rw [ofRatio_zero]; decide
+  have hNpos : 0 < N := by omega
+  unfold F32.ofRatio
+  have hbeq : (N == 0) = false := by simp; omega
+  have hK : 40 + bitLen (2^149) - bitLen N = 190 - bitLen N := by rw [bitLen_2_149]
+  simp only [hbeq, Bool.false_eq_true, if_false, hK]
+  have hblN : bitLen N ≤ 149 := bitLen_le_of_lt _ _ hN
+  obtain ⟨hb1, hb2⟩ := SpecL.bitLen_bounds hNpos
+  obtain ⟨K, hKd⟩ : ∃ K, K = 190 - bitLen N := ⟨_, rfl⟩
+  rw [← hKd]
+  have hK41 : 41 ≤ K := by omega
+  have hbl1 : 1 ≤ bitLen N := by
+    rcases Nat.eq_zero_or_pos (bitLen N) with h | h
+    · rw [h] at hb2; simp at hb2; omega
+    · exact h
+  have hD := Nat.two_pow_pos 149
+  -- the scaled quotient has at least 40 bits and is below 2^K
+  have hXlt : N * 2^K / 2^149 < 2^K := by
+    apply Nat.div_lt_of_lt_mul
+    exact (Nat.mul_lt_mul_right (Nat.two_pow_pos K)).2 hN
+  have hXlo : 2^39 ≤ N * 2^K / 2^149 := by
+    apply (Nat.le_div_iff_mul_le hD).2
+    have h1 : 2^(bitLen N - 1) * 2^K ≤ N * 2^K := Nat.mul_le_mul_right _ hb1
+    rw [← Nat.pow_add] at h1
+    have hexp : 39 + 149 ≤ bitLen N - 1 + K := by omega
+    have : 2^39 * 2^149 ≤ 2^(bitLen N - 1 + K) := by
+      rw [← Nat.pow_add]; exact Nat.pow_le_pow_right (by omega) hexp
+    omega
+  have c25 : 2^25 ≤ N * 2^K / 2^149 := by
+    have : (2:Nat)^25 ≤ 2^39 := Nat.pow_le_pow_right (by omega) (by omega)
+    omega
+  rw [SpecL.roundPack_div false _ _ _ hD c25, Z2O.withSign32]
+  simp only [Bool.false_eq_true, if_false, Nat.zero_add]
+  generalize hX : N * 2^K / 2^149 = X at *
+  have hXpos : 0 < X := by have := Nat.two_pow_pos 39; omega
+  have hblX : bitLen X ≤ K := bitLen_le_of_lt _ _ hXlt
+  have hblX40 : 40 ≤ bitLen X := SpecL.bitLen_ge hXlo
+  obtain ⟨hx1, hx2⟩ := SpecL.bitLen_bounds hXpos
+  -- working exponent and shift of rq
+  obtain ⟨fe, hfe⟩ : ∃ fe : Int, fe = if -(K : Int) + (bitLen (N * 2^K / 2^149) : Int) - 24 < -149 then -149
+      else -(K : Int) + (bitLen (N * 2^K / 2^149) : Int) - 24 := ⟨_, rfl⟩
+  rw [SpecL.rq_eq_rqAt _ _ _ fe hfe]
+  rw [hX] at hfe
+  have hfe24 : fe ≤ -24 := by rw [hfe]; split <;> omega
+  have hfe149 : -149 ≤ fe := by rw [hfe]; split <;> omega
+  obtain ⟨sft, hsft⟩ : ∃ sft : Nat, sft = (fe - -(K : Int)).toNat := ⟨_, rfl⟩
+  rw [← hsft]
+  have hsft1 : bitLen X ≤ sft + 24 := by rw [hfe] at hsft; split at hsft <;> omega
+  unfold SpecL.rqAt SpecL.pack
+  -- the truncated quotient is below 2^24
+  have hq0 : N * 2^K / (2^149 * 2^sft) < 16777216 := by
+    rw [← Nat.div_div_eq_div_mul, hX]
+    apply Nat.div_lt_of_lt_mul
+    have h1 := Nat.pow_le_pow_right (n := 2) (by omega) hsft1
+    rw [Nat.pow_add] at h1
+    have c24 : (2:Nat)^24 = 16777216 := by decide
+    rw [c24] at h1
+    omega
+  generalize N * 2^K / (2^149 * 2^sft) = q0 at *
+  have hbase : (fe + 149).toNat ≤ 125 := by omega
+  generalize (fe + 149).toNat = base at *
+  have hnb : ∀ x : Nat, x ≤ 1065353216 → (F32.ofNatBits x).nb = x :=
+    fun x hx => nb_ofNatBits x (by omega)
+  split
+  · rw [if_neg (by omega), hnb _ (by omega)]; omega
+  · rw [if_neg (by omega), hnb _ (by omega)]; omega
+
+/-- `angleNorm f` lies in `[0, 1]`: sign bit clear, bit pattern at most that of 1.0 -/
+theorem angle_range (f : F32) (hfin : expo f ≠ 255) :
+    sgn (angleNorm f) = 0 ∧ (angleNorm f).nb ≤ 1065353216 := by
+  have hlt : fracN f < 2^149 := by
+    unfold fracN; split <;> exact Nat.mod_lt _ (Nat.two_pow_pos 149)
+  have := ofRatio_le_one (fracN f) hlt
+  rw [← angle_mod1 f hfin] at this
+  refine ⟨?_, this⟩
+  show (angleNorm f).nb / 2147483648 = 0
+  omega
+
 end Ivg.Angle
